@@ -134,10 +134,13 @@ package slug
 //@   ensures C03,C05.notskip: err != filepath.SkipDir
 
 //@ func parseIgnoreFile -> (r)
+//@   pure
+//@   opt pure-label=C16.no-shared-state
 //@   sweep
 
 //@ func matchIgnoreRules -> (r)
 //@   pure
+//@   opt pure-label=C16.no-shared-state
 //@   sweep
 //@   ensures C03.use.same: r.Excluded == excl(ruleset, path) && r.Dominating == domin(ruleset, path)
 //@   ensures C03.use.off: ruleset == nil ==> !r.Excluded && !r.Dominating
